@@ -3099,6 +3099,21 @@ class FnTranslator:
     def mcall(self, e, env, pre, want):
         _, recv, m, turbo, args, line = e
         wr = getattr(self, "wr_of", {}).get(id(e), False)
+        if m in ("unwrap", "expect") and recv[0] in ("call", "mcall") and self.is_result:
+            # (b1012, round 9) `f(..).unwrap()` / `.expect(msg)` on the `Result` of a translated (or monadic external) call that
+            # does not update state: an `Err` is a panic (`Rs.unwrapOk`), a panic or overflow inside stays what it is.
+            # (a probe first: any other receiver goes on below, untouched)
+            pre0, n0 = [], self.n
+            try:
+                r0 = self.call_any(recv, env, pre0, want_result=True)
+            except RsError:
+                r0 = None
+            if r0 is not None and r0[2] == "comp":
+                pre.extend(pre0)
+                v = self.fresh()
+                pre.append(("bind", v, MCall("Rs.unwrapOk (%s)" % r0[0])))
+                return v, r0[1], "val"
+            self.n = n0
         if recv == ("path", ["self"]) and ("self." + m) in self.u.externals:
             return self.call_external("self." + m, args, env, pre)
         if recv == ("path", ["self"]) and self.impl and "%s.%s" % (self.impl, m) in self.u.externals and "self" in env:
